@@ -1,5 +1,71 @@
 import Sigc.Model
-import Sigc.Spec
-/-! property theorems for C15 (being written) -/
+import Sigc.Lemmas.Basic
+/-!
+# C15 — slots are values: copies are independent, moves empty the source
+
+Theorems about the slot-value layer of the model (`SlotB` = `slot_base`: `blocked_`, `rep_`), which is
+what `cpS/mvS/asgS/masgS/conn/connmv/nest` of the operation language execute (`Sigc.Model.stepSimple`).
+They hold for every slot value — there is no bound on the functor nested inside.
+-/
 namespace Sigc.C15
+open Sigc.Model
+
+/-- a default-constructed slot is empty -/
+theorem default_empty : ({} : SlotB).empty = true := rfl
+
+/-- copying an empty or invalidated slot yields an empty slot without a representation -/
+theorem copy_of_invalid_is_empty (s : SlotB) (h : s.empty = true) : s.copy.rep = none ∧ s.copy.empty = true := by
+  unfold SlotB.empty at h
+  unfold SlotB.copy
+  cases hr : s.rep with
+  | none => simp [SlotB.empty]
+  | some r =>
+    rw [hr] at h
+    have : r.call = false := by simpa using h
+    simp [this, SlotB.empty]
+
+/-- a copy of a valid slot is valid, holds the same functor value (its own copy: the model's functor
+    values are immutable) and the same blocking state -/
+theorem copy_of_valid (s : SlotB) (r : Rep) (hr : s.rep = some r) (hc : r.call = true) :
+    s.copy = { blocked := s.blocked, rep := some { call := true, fn := r.fn } } := by
+  unfold SlotB.copy
+  rw [hr]
+  simp [hc]
+
+/-- moving from a slot leaves the source empty … -/
+theorem move_empties_source (s : SlotB) : s.move.2.empty = true := by
+  unfold SlotB.move
+  cases hr : s.rep with
+  | none => simp [SlotB.empty, hr]
+  | some r => simp [SlotB.empty]
+
+/-- … and the destination behaving as the source did (same representation, same blocking state) -/
+theorem move_preserves_behaviour (s : SlotB) : s.move.1.rep = s.rep ∧ s.move.1.blocked = s.blocked := by
+  unfold SlotB.move
+  cases hr : s.rep <;> simp
+
+/-- `disconnect()` empties the slot (until a new functor is assigned) and keeps the blocking state -/
+theorem disconnect_empties (s : SlotB) : s.disconnectRep.empty = true ∧ s.disconnectRep.blocked = s.blocked := by
+  unfold SlotB.disconnectRep
+  cases hr : s.rep <;> simp [SlotB.empty, hr]
+
+/-- copy-constructing a slot variable (`cpS j i`) changes no other slot variable, no signal, no
+    connection: the copy is independent state -/
+theorem cpS_frame (s s' : St) (r : String) (j i : Nat) (h : stepSimple s (.cpS j i) = some (s', r)) :
+    s'.impls = s.impls ∧ s'.C = s.C ∧ s'.K = s.K ∧ s'.T = s.T ∧ s'.G = s.G ∧
+    ∀ k, k ≠ j → aget s'.S k = aget s.S k := by
+  simp only [stepSimple] at h
+  split at h
+  · simp at h; obtain ⟨rfl, _⟩ := h; simp
+  · split at h
+    · simp at h; obtain ⟨rfl, _⟩ := h; simp
+    · simp at h
+      obtain ⟨rfl, _⟩ := h
+      refine ⟨rfl, rfl, rfl, rfl, rfl, ?_⟩
+      intro k hk
+      exact aget_aset_other _ _ _ _ hk
+
+example : ({ blocked := true, rep := some { call := true, fn := some (.leaf 3 [7]) } } : SlotB).copy.empty = false := by
+  decide
+
 end Sigc.C15
